@@ -364,6 +364,36 @@ def strip_type(c):
     return c
 
 
+def xdiff(a, b):
+    """second, independent opinion: this module's canonical form (typed values by their exact XSD literal, so
+    nothing is rounded or normalised by the comparison itself); unordered collections by membership.
+    -> None or 'path: x != y'"""
+    if _META[0] is None:
+        return None
+    va, vb = xval(_META[0], a, set()), xval(_META[0], b, set())
+    if nkey(va) == nkey(vb):
+        return None
+
+    def walk(x, y, path):
+        if x[0] != y[0] or (x[0] == "obj" and x[1] != y[1]):
+            return f"{path}: {cval(x)[:150]} != {cval(y)[:150]}"
+        if x[0] == "obj":
+            for (n1, v1), (n2, v2) in zip(x[2], y[2]):
+                if nkey(v1) != nkey(v2):
+                    return walk(v1, v2, f"{path}/{n1}")
+        if x[0] == "list":
+            if len(x[1]) != len(y[1]):
+                return f"{path}: length {len(x[1])} != {len(y[1])}"
+            xs, ys = x[1], y[1]
+            if len(x) > 2 and x[2]:
+                xs, ys = sorted(xs, key=nkey), sorted(ys, key=nkey)
+            for k, (p, q) in enumerate(zip(xs, ys)):
+                if nkey(p) != nkey(q):
+                    return walk(p, q, f"{path}[{k}]")
+        return f"{path}: {cval(x)[:150]} != {cval(y)[:150]}"
+    return walk(va, vb, "")
+
+
 def norm_path(d):
     d = d or ""
     path = d.split(":")[0] if ": " in d else d
@@ -389,6 +419,9 @@ def oracle_store(store):
         d = aasgen.diff(before[i], after[i], "")
         if d:
             return ("C04:store:diff:" + norm_path(d), d[:400])
+        d = xdiff(store.get_identifiable(i), back.get_identifiable(i))
+        if d:
+            return ("C04:store:diff:" + norm_path(d), d[:400])
     return None
 
 
@@ -402,12 +435,33 @@ def single_roundtrip(obj, member):
     return el, read_aas_xml_element(io.BytesIO(raw), getattr(XMLConstructables, member), failsafe=False)
 
 
-def oracle_single(obj, member):
-    import aasgen
+def oracle_single(obj, member, twin=None):
+    """twin: an equal object whose element tree is built before the first tree is serialised (two trees alive at the
+    same time: a writer that shares prebuilt sub-elements between calls moves them out of the first tree)"""
     try:
-        el, back = single_roundtrip(obj, member)
+        if twin is None:
+            el, back = single_roundtrip(obj, member)
+            pairs = [(obj, back)]
+        else:
+            from lxml import etree
+            from basyx.aas.adapter.xml import read_aas_xml_element, XMLConstructables
+            from basyx.aas.adapter.xml.xml_serialization import object_to_xml_element
+            els = [object_to_xml_element(obj), object_to_xml_element(twin)]
+            raws = [etree.tostring(e, encoding="UTF-8", xml_declaration=True) for e in els]
+            backs = [read_aas_xml_element(io.BytesIO(r), getattr(XMLConstructables, member), failsafe=False)
+                     for r in raws]
+            pairs = [(obj, backs[0]), (twin, backs[1])]
     except Exception as e:
         return (f"C04:single:{member}:raises:{type(e).__name__}", f"{type(e).__name__}: {str(e)[:300]}")
+    for o, b in pairs:
+        bad = compare_single(o, b, member)
+        if bad:
+            return bad
+    return None
+
+
+def compare_single(obj, back, member):
+    import aasgen
     if type(back) is not type(obj):
         return (f"C04:single:{member}:type", f"{type(obj).__name__} came back as {type(back).__name__}")
     if class_name(obj) in LSS_CLASSES + ["ValueList"]:
@@ -419,7 +473,7 @@ def oracle_single(obj, member):
         if class_name(obj) in LSS_CLASSES and list(obj.items()) != list(back.items()):
             return (f"C04:single:{member}:diff:order", "language order changed")
         return None
-    d = aasgen.diff(strip_type(aasgen.canon(obj)), strip_type(aasgen.canon(back)), "")
+    d = aasgen.diff(strip_type(aasgen.canon(obj)), strip_type(aasgen.canon(back)), "") or xdiff(obj, back)
     if d:
         return (f"C04:single:{member}:diff:" + norm_path(d), d[:400])
     return None
@@ -459,13 +513,25 @@ def sanitise(meta, obj, stats, seen=None):
                 sanitise(meta, x, stats, seen)
 
 
-def gen_store_case(meta, seed, i, size, depth, stats):
+def gen_store_case(meta, seed, i, size, depth, stats, twins=False):
+    """twins: every identifiable occurs a second time with equal content under another id, so that every element
+    with a non-default value occurs at least twice in the document"""
     import aasgen
+    from basyx.aas import model
     rng = case_rng(seed, "store", i)
     g = aasgen.Gen(rng, depth=depth, strings=rng.choice(["xml", "xml", "json", "plain"]))
     st = g.store(size)
     for o in st:
         sanitise(meta, o, stats)
+    if twins:
+        rng2 = case_rng(seed, "store", i)
+        g2 = aasgen.Gen(rng2, depth=depth, strings=rng2.choice(["xml", "xml", "json", "plain"]))
+        both = list(st)
+        for o in g2.store(size):
+            sanitise(meta, o, {})
+            o.id = o.id + "#twin"
+            both.append(o)
+        st = model.DictObjectStore(both)
     return st, g.features
 
 
@@ -601,7 +667,7 @@ def run(chk):
     # ---- oracle on whole stores
     n_store = 120 if quick else 1500
     for i in range(n_store):
-        st, feats = gen_store_case(meta, seed, i, size=3, depth=3, stats=stats)
+        st, feats = gen_store_case(meta, seed, i, size=3, depth=3, stats=stats, twins=True)
         chk.seen(("store", i), nontrivial=True)
         for k, v in feats.items():
             chk.count("feature:" + k, v)
@@ -629,10 +695,11 @@ def run(chk):
         cname, obj = gen_single_case(meta, seed, i, depth=2, stats=stats, cls=cls)
         chk.seen(("single", i), nontrivial=True)
         chk.count("single:" + cname)
+        _, twin = gen_single_case(meta, seed, i, depth=2, stats={}, cls=cls)      # same PRNG: an equal object
         for m in members_of.get(cname, []):
-            bad = oracle_single(obj, m)
+            bad = oracle_single(obj, m, twin)
             if bad:
-                chk.fail(bad[0], bad[1], {"how": "tools/c04.py replay: gen_single_case(seed, i) -> object_to_xml_element"
+                chk.fail(bad[0], bad[1], {"how": "tools/c04.py replay: gen_single_case(seed, i) twice -> object_to_xml_element"
                                                  " -> read_aas_xml_element(failsafe=False) -> aasgen.canon",
                                           "kind": "single", "i": i, "member": m, "class": cname, "diff": bad[1]})
         singles.append((i, cname, obj))
@@ -654,6 +721,8 @@ def run(chk):
     single_writer_gaps(chk, unsupported)
     # ---- every key type in every reference position (typed and untyped model references, external references)
     reference_stress(chk)
+    # ---- long / extreme typed values in every value position
+    value_stress(chk)
     # ---- XML lexical stress through a Property / MultiLanguageProperty / File / Blob in one submodel
     lex_fail = lexical_stress(chk)
 
@@ -877,6 +946,50 @@ def _reference_stress(chk, only=None):
                      {"kind": "refs", "k": k, "reference": chain, "class": type(ref).__name__, "diff": bad[1]})
 
 
+def value_pool():
+    """typed values whose literal is long or extreme: more significant digits than any arithmetic context default,
+    long fractions, Decimals given in exponent form, integers beyond 64 bit, extreme doubles"""
+    import decimal
+    from basyx.aas import model
+    D = model.datatypes
+    dec = ["1234567890123456789012345678.9", "12345678901234567890123456789", "0." + "0" * 30 + "1234567890123456789",
+           "-" + "9" * 45 + "." + "9" * 15, "3." + "1415926535897932384626433832795028841971693993751058209749445923",
+           "1E+40", "-1.5E+35", "1E-40", "7" * 60, "0.1" + "0" * 40 + "1", "100000000000000000000000000001E-29"]
+    pool = [(D.Decimal, decimal.Decimal(x)) for x in dec]
+    pool += [(D.Integer, D.Integer(x)) for x in (10 ** 40 + 1, -(10 ** 60) - 7, 2 ** 64, -2 ** 63 - 1)]
+    pool += [(D.NonNegativeInteger, D.NonNegativeInteger(10 ** 30 + 3)), (D.PositiveInteger, D.PositiveInteger(10 ** 29 + 1)),
+             (D.NonPositiveInteger, D.NonPositiveInteger(-10 ** 30 - 3)), (D.NegativeInteger, D.NegativeInteger(-10 ** 29 - 1)),
+             (D.UnsignedLong, D.UnsignedLong(2 ** 64 - 1)), (D.Long, D.Long(-2 ** 63))]
+    pool += [(D.Double, x) for x in (1.7976931348623157e308, 5e-324, 0.1 + 0.2, -2.2250738585072014e-308, 1e22, 123456789.12345679)]
+    pool += [(D.Float, D.Float(x)) for x in (3.4028234663852886e38, 1.401298464324817e-45, 16777217.0, 0.30000001192092896)]
+    return pool
+
+
+def value_stress(chk, only=None):
+    from basyx.aas import model
+    pool = value_pool()
+    for k, (t, v) in enumerate(pool):
+        if only is not None and k != only:
+            continue
+        chk.seen(("value", k), nontrivial=True)
+        chk.count("value_stress:" + t.__name__)
+        try:
+            elems = [model.Property("p", t, v, qualifier=[model.Qualifier("q", t, v)],
+                                    extension=[model.Extension("e", t, v)]),
+                     model.Range("r", t, min=v, max=v),
+                     # the same values a second time in the same document
+                     model.SubmodelElementCollection("c", value=[model.Property("p", t, v), model.Range("r", t, max=v)])]
+            st = model.DictObjectStore([model.Submodel("urn:values:sm", submodel_element=elems,
+                                                       qualifier=[model.Qualifier("q", t, v)])])
+        except Exception as e:
+            chk.count("value_stress_rejected_by_sdk:" + type(e).__name__)
+            continue
+        bad = oracle_store(st)
+        if bad:
+            chk.fail(bad[0].replace("C04:store", "C04:values"), f"{t.__name__} {v!r}: {bad[1]}",
+                     {"kind": "values", "k": k, "type": t.__name__, "value": repr(v), "diff": bad[1]})
+
+
 BOOL_TEXTS = ["true", "false", "1", "0", " true", "false ", "\n1\t", " 0 ", "\r\n true \r\n", "TRUE", "", " ", "yes",
               "t rue", "10", "true1"]
 
@@ -1015,7 +1128,7 @@ def replay(path):
         return 1
     meta = tabs[0]
     if rp.get("kind") == "store":
-        st, _ = gen_store_case(meta, seed, rp["i"], 3, 3, {})
+        st, _ = gen_store_case(meta, seed, rp["i"], 3, 3, {}, twins=True)
         if rp.get("only_id"):
             from basyx.aas import model
             st = model.DictObjectStore([st.get_identifiable(rp["only_id"])])
@@ -1026,9 +1139,15 @@ def replay(path):
         i = rp["i"]
         cls = rp.get("class") if i >= 10 ** 6 else (SINGLE_GEN[i % len(SINGLE_GEN)] if i < 4 * len(SINGLE_GEN) else None)
         cname, obj = gen_single_case(meta, seed, i, 1 if i >= 10 ** 6 else 2, {}, cls=cls)
-        bad = oracle_single(obj, rp["member"])
+        _, twin = gen_single_case(meta, seed, i, 1 if i >= 10 ** 6 else 2, {}, cls=cls)
+        bad = oracle_single(obj, rp["member"], twin)
         print("oracle:", bad)
         return 1 if bad else 0
+    if rp.get("kind") == "values":
+        c2 = common.Check("C04", "quick", seed)
+        value_stress(c2, only=rp["k"])
+        print("oracle:", [f["what"][:300] for f in c2.failures])
+        return 1 if c2.failures else 0
     if rp.get("kind") == "refs":
         c2 = common.Check("C04", "quick", seed)
         reference_stress(c2, only=rp["k"])
